@@ -692,8 +692,34 @@ def var_def_exprs(body, v, expand=True):
 RECV_NAMES = ("Receiver::recv", "Receiver::try_recv", "SelectedOperation::recv", "Receiver::recv_blocking", "Receiver::recv_timeout")
 
 
+def canon_self(body, ch):
+    """`this.stop_rx` -> `self.stop_rx` when `this` is a local of the type the function is implemented for (a
+    worker built as a literal inside an associated `spawn(..)` instead of being passed in as `self`)."""
+    if ch[0] != "field" or ch[1][0] != "var" or ch[1][1] == "self":
+        return ch
+    try:
+        root = body.facts.body(strip_generics(body.raw["root"]), required=False)
+    except Exception:
+        root = None
+    owner = strip_generics((root.raw.get("impl_self") or "").split("<")[0]) if root is not None else ""
+    a = body.facts.adts.get(owner)
+    if not a or (root is not None and root.arg_count >= 1 and root.local_name.get(1) == "self"):
+        return ch
+    if not any(f["name"] == ch[2] for v in a["variants"] for f in v["fields"]):
+        return ch
+    # the local must be of that type (looked up in the root function, where it is declared)
+    l = root.name_local.get(ch[1][1])
+    if l is None or strip_generics(root.locals[l]["ty"].split("<")[0]) != owner:
+        return ch
+    return ("field", ("var", "self"), ch[2])
+
+
 def recv_sites(body):
     """Channel receive sites: (bi, term, channel expr)."""
+    return [(bi, t, canon_self(body, ch)) for bi, t, ch in _recv_sites(body)]
+
+
+def _recv_sites(body):
     out = []
     for bi, t in body.calls():
         c = body.callee_of(t)
@@ -931,6 +957,72 @@ def single_iteration(facts, body):
 # path-wise symbolic evaluation of small loop-free bodies: what is returned on which path,
 # whatever the spelling (`let mut x = a; if c { x += 1 } x`, `if c { a + 1 } else { a }`, early returns)
 # ----------------------------------------------------------------------------------------
+
+def sym_segment(body, start, stops, max_paths=128):
+    """Like sym_paths for a piece of a body: every path from block `start` to the first block of `stops` (not
+    entered), as [(lits, env)] with env mapping normalised place expressions to the value they hold at the end of
+    the path (over what they held at `start`).  Used for one round of a loop."""
+    out = []
+    stops = set(stops)
+
+    def ev(e, env):
+        e = norm(e)
+        return norm(subst(e, env)) if env else e
+
+    def run(bi, env, lits, depth, seen):
+        if len(out) > max_paths or depth > 200:
+            raise TooManyStates("sym_segment: too many paths in %s" % body.spath)
+        if bi in stops:
+            out.append((tuple(lits), env))
+            return
+        if bi in seen:
+            return  # an inner cycle: not followed
+        seen = seen | {bi}
+        bb = body.blocks[bi]
+        env = dict(env)
+        for st in bb["stmts"]:
+            if st["k"] != "assign":
+                continue
+            pl = st["pl"]
+            if pl["p"]:
+                tg = place_target(body, pl)
+                if tg is not None and tg[0] == "var":
+                    # a write through a reference to a variable (a captured `&mut min` of a spliced closure)
+                    env[norm(tg)] = ev(body.rvalue_expr(st["rv"], False), env)
+                    continue
+                key = body.place_expr({"l": pl["l"], "p": []}, False)
+                if "*" not in pl["p"]:
+                    env.pop(norm(key), None)
+                continue
+            env[norm(body.place_expr(pl, False))] = ev(body.rvalue_expr(st["rv"], False), env)
+        t = bb["term"]
+        if t is None or t["k"] == "return":
+            return
+        if t["k"] == "call":
+            if t["t"] is None:
+                return
+            if not t["dest"]["p"]:
+                env[norm(body.place_expr(t["dest"], False))] = ev(body.call_expr(t, False), env)
+            run(t["t"], env, lits, depth + 1, seen)
+            return
+        if t["k"] == "switch":
+            for tgt, atom, pol in edge_literals(body, bi):
+                l2 = lits
+                if atom is not None:
+                    a = ev(atom, env)
+                    if any(a == x and pol != v for x, v in lits):
+                        continue
+                    l2 = lits + [(a, pol)]
+                run(tgt, env, l2, depth + 1, seen)
+            return
+        for s2 in body.succs(bi):
+            run(s2, env, lits, depth + 1, seen)
+    try:
+        run(start, {}, [], 0, frozenset())
+    except RecursionError:
+        return None
+    return out
+
 
 def sym_paths(body, max_paths=128):
     """[(lits, ret)] for every path of a loop-free body: lits = ((atom, bool), ...) and ret = the value
